@@ -6,7 +6,7 @@ import ast
 from typing import Dict, List, Optional
 
 from . import poly
-from .absint import BoolV, NoneV, Num, Obj, Opaque, Path, State, Val, c_not, show_cond
+from .absint import BoolV, NoneV, Num, Obj, Opaque, Path, State, Val, c_not, mk_cmp, show_cond
 from .core import Result, finding, norm_construct
 from .facts import describe_facts, prove_ge0
 from .heap import HeapInterp, final_attr
@@ -292,6 +292,8 @@ def check_collapse(prop: str, res: Result, repo: Repo, want=("R-INTERVAL", "R-CO
             res.fail("R-INTERVAL", finding(prop, "R-INTERVAL", cc, (merges[0][3] if merges else appends[0][2]) if (merges or appends) else loop, f"branch [{descr}] files the candle under label {label!r}: " + "; ".join(why), construct=f"collapse branch label {label!r}: {descr}"[:190]))
     if n_branches < 4:
         res.errors.append(f"{cc.where}: only {n_branches} placing branches found in the collapse walk (expected the merge/append/advance/jump arms)")
+    if "R-INVARIANT" in want:
+        _collapse_invariant(prop, res, repo, cc, loop, live, outs, S, TF, TS)
     # ---- after the loop
     if "R-FILLPATH" in want or "R-CONSERVE" in want:
         post = fn.body[fn.body.index(loop) + 1 :]
@@ -314,6 +316,130 @@ def check_collapse(prop: str, res: Result, repo: Repo, want=("R-INTERVAL", "R-CO
                             res.ok("R-FILLPATH", {"site": cc.where, "when fill is on": "candles_ = self.fill_missing_candles(candles_, timeframe_) before extend"}, nontrivial="fillpath")
                         else:
                             res.fail("R-FILLPATH", finding(prop, "R-FILLPATH", cc, item[1], "with timeframe_fill set the rebuilt list must pass through fill_missing_candles(candles_, timeframe_) before it is stored"))
+
+
+def _collapse_invariant(prop, res, repo, cc, loop, pre_live, outs, S, TF, TS):
+    """Inductive invariant of the walk, by predicate abstraction with the single predicate
+        I:  label(last bucket) in {start_time, end_time}   (and end_time == start_time + tf, start on the grid)
+    (1) I holds when the loop is entered; (2) every placing branch re-establishes I; under I and the
+    precondition `ts > label(last) - tf` (the new candle does not belong to a bucket before the last one:
+    true for non-decreasing streams by the per-branch lower bound of R-INTERVAL) (3) no path reaches the
+    `raise InvalidCandleOrder` arm and (4) an appended bucket's label is strictly greater than the last label."""
+    rule = "R-INVARIANT"
+    last_ts = A("attr", "last", "timestamp")
+    E = S + TF
+    # (1) entry: the first candle is labelled start (if it sits on a boundary) or end
+    for s, _ in pre_live:
+        stt, ent = s.env.get("start_time"), s.env.get("end_time")
+        first = s.env.get("init_candle")
+        lab = s.heap.get((first, "timestamp")) if isinstance(first, Obj) else None
+        facts = list(s.facts)
+        on = [c for c in facts if isinstance(c, tuple) and c[0] == "ontf"]
+        off = [c for c in facts if isinstance(c, tuple) and c[0] == "not" and isinstance(c[1], tuple) and c[1][0] == "ontf"]
+        if off and isinstance(lab, Num) and isinstance(ent, Num) and lab.f == ent.f:
+            res.ok(rule, {"entry": "first candle off a boundary", "label": "end_time"}, nontrivial="inv:entry-off")
+        elif on and lab is None and isinstance(stt, Num) and any(a[0] == "fn" and a[1] == "rd" for a in stt.f.atoms()):
+            res.ok(rule, {"entry": "first candle on a boundary", "label": "its own timestamp == start_time (rd(ts) = ts)"}, nontrivial="inv:entry-on")
+        else:
+            res.fail(rule, finding(prop, rule, cc, loop, "on entry to the walk the first candle is not labelled with the window's start (on a boundary) or end (otherwise)", construct="collapse entry label"))
+    # (2)-(4) per branch
+    raises, placing = [], []
+    for s2, out in outs:
+        ret = out[1] if out is not None else None
+        if isinstance(ret, Obj) and ret.kind == "continue":
+            continue
+        if isinstance(ret, Opaque) and ret.why == "raise":
+            raises.append(s2)
+        else:
+            placing.append(s2)
+
+    def cases(facts):
+        """invariant cases compatible with the path's (dis)equalities on the last label"""
+        out = []
+        for name, val in (("start", S), ("end", E)):
+            eq = mk_cmp("==", last_ts, val)
+            ne = mk_cmp("!=", last_ts, val)
+            if ne in facts:
+                continue
+            other = E if name == "start" else S
+            if mk_cmp("==", last_ts, other) in facts:
+                continue
+            out.append((name, val))
+        return out
+
+    for s2 in placing:
+        facts = tuple(c for c in s2.facts if not (isinstance(c, tuple) and c[0] in ("present-ts",)))
+        descr = "; ".join(show_cond(c) for c in facts)[:200]
+        merges = [e for e in s2.effects if e[0] == "merge"]
+        new_S, new_E = s2.env.get("start_time"), s2.env.get("end_time")
+        label_v = s2.heap.get((Obj("obj", "cur"), "timestamp"))
+        if merges:
+            relabel = s2.heap.get((Obj("obj", "last"), "timestamp"))
+            if isinstance(new_S, Num) and new_S.f == S and isinstance(new_E, Num) and new_E.f == E and relabel is None:
+                res.ok(rule, {"branch": descr, "preserves": "merge: last label and window unchanged"}, nontrivial="inv:" + descr)
+            else:
+                res.fail(rule, finding(prop, rule, cc, merges[0][3], f"a merging branch moves the window or re-labels the last bucket (branch: {descr})", construct=f"collapse invariant (merge): {descr}"[:190]))
+            continue
+        if not (isinstance(label_v, Num) and isinstance(new_S, Num) and isinstance(new_E, Num)):
+            res.fail(rule, finding(prop, rule, cc, loop, f"appending branch without label/window (branch: {descr})", construct=f"collapse invariant (append): {descr}"[:190]))
+            continue
+        ax = [TF - ONE]
+        rd_ts = mk_fn("rd", TS)
+        ax += [TS - rd_ts, rd_ts + TF - TS - ONE]
+        f2 = []
+        for c in facts:
+            if isinstance(c, tuple) and c[0] == "ontf":
+                ax.append(rd_ts - TS)
+            elif isinstance(c, tuple) and c[0] == "not" and isinstance(c[1], tuple) and c[1][0] == "ontf":
+                ax.append(TS - rd_ts - ONE)
+            else:
+                f2.append(c)
+        lab = label_v.f
+        in_set = lab == new_S.f or lab == new_E.f or lab.same(new_S.f) or lab.same(new_E.f)
+        if in_set:
+            res.ok(rule, {"branch": descr, "re-establishes": f"new last label {lab!r} is the new window's {'start' if lab == new_S.f else 'end'}"}, nontrivial="inv:" + descr)
+        else:
+            res.fail(rule, finding(prop, rule, cc, loop, f"after the branch [{descr}] the last bucket's label {lab!r} is neither start_time nor end_time of the new window", construct=f"collapse invariant (append): {descr}"[:190]))
+        # (4) strictly increasing labels
+        cs = cases(facts)
+        mono = bool(cs)
+        for name, val in cs:
+            pre = [TS - (val - TF) - ONE]  # precondition: ts > label(last) - tf
+            if not prove_ge0(lab - val - ONE, tuple(f2) + (("ge0", last_ts - val), ("ge0", val - last_ts)), ax + pre):
+                mono = False
+        if mono:
+            res.ok("R-MONOTONE", {"branch": descr, "why": f"appended label {lab!r} > last label in every invariant case ({', '.join(n for n, _ in cs)})"}, nontrivial="mono:" + descr)
+        else:
+            res.fail("R-MONOTONE", finding(prop, "R-MONOTONE", cc, loop, f"the branch [{descr}] can append a bucket whose label {lab!r} is not greater than the last bucket's label (duplicate or out-of-order bucket)", construct=f"collapse monotone: {descr}"[:190]))
+    # (3) totality
+    from .facts import facts_to_lin
+    from .linear import feasible
+
+    n_checked = 0
+    for s2 in raises:
+        facts = tuple(c for c in s2.facts if not (isinstance(c, tuple) and c[0] in ("present-ts",)))
+        ax = [TF - ONE]
+        rd_ts = mk_fn("rd", TS)
+        ax += [TS - rd_ts, rd_ts + TF - TS - ONE]
+        f2 = []
+        for c in facts:
+            if isinstance(c, tuple) and c[0] == "ontf":
+                ax.append(rd_ts - TS)
+            elif isinstance(c, tuple) and c[0] == "not" and isinstance(c[1], tuple) and c[1][0] == "ontf":
+                ax.append(TS - rd_ts - ONE)
+            else:
+                f2.append(c)
+        for name, val in cases(facts):
+            n_checked += 1
+            pre = [TS - (val - TF) - ONE]
+            lins = facts_to_lin(tuple(f2) + (("ge0", last_ts - val), ("ge0", val - last_ts)), ax + pre)
+            if feasible(lins):
+                descr = "; ".join(show_cond(c) for c in facts)[:160]
+                res.fail("R-TOTAL", finding(prop, "R-TOTAL", cc, loop, f"with the last label at the window {name} and a candle not older than the last bucket, the walk can reach `raise InvalidCandleOrder` (path: {descr})", construct=f"collapse totality ({name}): {descr}"[:190]))
+            else:
+                res.ok("R-TOTAL", {"invariant case": f"last label == window {name}", "raise path": "infeasible"}, nontrivial=f"total:{name}:{n_checked}")
+    if not raises:
+        res.note("collapse walk has no raising arm")
 
 
 def _on_grid(label: Frac, S, TF) -> bool:
